@@ -13,6 +13,7 @@ From MW Require Import Model.Base Model.F64 Model.Num Model.Datum Model.Transfor
   Proofs.CellFuelProofs Proofs.CompileCorrect2 Proofs.FrameSteps3 Proofs.Closures4 Proofs.CompileCorrect4 Proofs.CompileStatic4
   Proofs.FragmentCorollaries.
 From MW Require Proofs.ScopeProofs.
+From MW Require Model.Builtins.
 Open Scope N_scope.
 
 Arguments N.add : simpl never.
@@ -1039,7 +1040,106 @@ Proof.
   apply (genv_rel4_ext rho m); [|reflexivity|exact G]. apply rext_same; try reflexivity; lia.
 Qed.
 
-(*EXAMPLES*)
+(* ============================================================ non-vacuity *)
+Ltac in_cases H := repeat (destruct H as [<-|H]; [|]); try contradiction.
+
+(* ((lambda (x) 'ignored x) '(1 2)): a body of two expressions, the first one evaluated for effect
+   (none here) in non-tail position and dropped, the second one in tail position *)
+Definition ex6_lam : expr4 := ZLam [S_ "x"] [] [ZQuote (CSym (S_ "ignored")); ZVar (S_ "x")].
+Definition ex6_e : expr4 := ZApp ex6_lam [ZQuote ex2_list].
+
+Lemma ex6_hypotheses :
+  wf4 ex6_e [] /\ minv (vm_empty 8192) /\ genv_rel4 rho4_empty (vm_empty 8192) /\
+  ref_eval4 bsem_not [] [] rho4_empty ex6_e (R4Base (RDatum ex2_list)) rho4_empty.
+Proof.
+  split.
+  { apply wf4_app. split; [reflexivity|]. split; [|repeat constructor].
+    apply wf4_lam. split; [discriminate|]. split; [intros x [<-|[]]; reflexivity|].
+    split; [intros b [<-|[<-|[]]]; reflexivity|]. split; [vm_compute; reflexivity|]. split.
+    { intros x Hx. right; left. reflexivity. }
+    repeat constructor. }
+  split; [apply minv_vm_empty; reflexivity|]. split; [apply genv_rel4_empty|].
+  eapply (R4_app_closure bsem_not _ _ _ _ _ [R4Base (RDatum ex2_list)] _ [S_ "x"] [] _ [] _
+            [R4Base (RDatum (CSym (S_ "ignored"))); R4Base (RDatum ex2_list)]
+            [R4Base (RDatum (CSym (S_ "ignored")))]).
+  - eapply R4_cons; [apply R4_quote|apply R4_nil].
+  - apply (R4_lam bsem_not [] [] _ [S_ "x"] [] _ []). constructor.
+  - reflexivity.
+  - eapply R4_cons; [apply R4_quote|]. eapply R4_cons; [|apply R4_nil].
+    apply (R4_local bsem_not _ _ _ _ 0); reflexivity.
+  - reflexivity.
+Qed.
+
+(* ... and the model evaluates it to (1 2) with the registers of the start *)
+Lemma ex6_run :
+  transform_expr TRANSFORM_FUEL (vm_empty 8192) (cell_of4 ex6_e) = Ok (cell_of4 ex6_e) /\
+  match eval Model.Builtins.other_builtin 200 (cell_of4 ex6_e) (vm_empty 8192) with
+  | ROk (Done c) s' => c = ex2_list /\ sp s' = 0 /\ bp s' = 0 /\ ep s' = USIZE_MAX
+  | _ => False
+  end.
+Proof. vm_compute. repeat split. Qed.
+
+(* a session: (define g #f), then ((lambda (x) (set! g x) (if g 'yes 'no)) #t): the first body
+   expression is evaluated in NON-TAIL position for its effect on the global g, which the last
+   body expression (tail position) observes: the value is yes *)
+Definition ex7_def : expr4 := ZDefine (S_ "g") (ZConst (CBool false)).
+Definition ex7_lam : expr4 :=
+  ZLam [S_ "x"] [S_ "g"]
+       [ZSet (S_ "g") (ZVar (S_ "x"));
+        ZIf (ZVar (S_ "g")) (ZQuote (CSym (S_ "yes"))) (ZQuote (CSym (S_ "no")))].
+Definition ex7_call : expr4 := ZApp ex7_lam [ZConst (CBool true)].
+Definition ex7_rho : env4 := upd4 rho4_empty (S_ "g") (R4Base (RDatum (CBool false))).
+Definition ex7_rho' : env4 := upd4 ex7_rho (S_ "g") (R4Base (RDatum (CBool true))).
+
+Lemma ex7_hypotheses :
+  wf4 ex7_def [] /\ wf4 ex7_call [] /\ minv (vm_empty 8192) /\ genv_rel4 rho4_empty (vm_empty 8192) /\
+  ref_eval4 bsem_not [] [] rho4_empty ex7_def (R4Base (RDatum CVoid)) ex7_rho /\
+  ref_eval4 bsem_not [] [] ex7_rho ex7_call (R4Base (RDatum (CSym (S_ "yes")))) ex7_rho'.
+Proof.
+  split.
+  { cbn [wf4 ex7_def]. split; [reflexivity|]. split; [reflexivity|]. cbn; tauto. }
+  split.
+  { apply wf4_app. split; [reflexivity|]. split; [|repeat constructor; cbn; tauto].
+    apply wf4_lam. split; [discriminate|]. split; [intros x [<-|[]]; reflexivity|].
+    split; [intros b [<-|[<-|[]]]; reflexivity|]. split; [vm_compute; reflexivity|]. split.
+    { intros x Hx. right; left. reflexivity. }
+    constructor; [|constructor; [|constructor]].
+    - cbn [wf4]. split; [reflexivity|]. split; [reflexivity|reflexivity].
+    - cbn [wf4]. split; [reflexivity|]. split; exact I. }
+  split; [apply minv_vm_empty; reflexivity|]. split; [apply genv_rel4_empty|].
+  split.
+  { apply (R4_define bsem_not [] [] rho4_empty (S_ "g") _ (R4Base (RDatum (CBool false))) rho4_empty).
+    apply R4_const. }
+  eapply (R4_app_closure bsem_not _ _ _ _ _ [R4Base (RDatum (CBool true))] _ [S_ "x"] [] _ [] _
+            [R4Base (RDatum CVoid); R4Base (RDatum (CSym (S_ "yes")))] [R4Base (RDatum CVoid)]).
+  - eapply R4_cons; [apply R4_const|apply R4_nil].
+  - apply (R4_lam bsem_not [] [] _ [S_ "x"] [S_ "g"] _ []). constructor.
+  - reflexivity.
+  - eapply R4_cons; [|eapply R4_cons; [|apply R4_nil]].
+    + eapply (R4_set bsem_not _ _ ex7_rho (S_ "g") _ (R4Base (RDatum (CBool true))) ex7_rho).
+      * apply (R4_local bsem_not _ _ _ _ 0); reflexivity.
+      * reflexivity.
+    + eapply R4_if_t.
+      * apply R4_global; [reflexivity|reflexivity|discriminate].
+      * reflexivity.
+      * apply R4_quote.
+  - reflexivity.
+Qed.
+
+(* ... and the model, run on the two forms in sequence, answers #<void> and yes *)
+Lemma ex7_run :
+  transform_expr TRANSFORM_FUEL (vm_empty 8192) (cell_of4 ex7_def) = Ok (cell_of4 ex7_def) /\
+  match eval Model.Builtins.other_builtin 200 (cell_of4 ex7_def) (vm_empty 8192) with
+  | ROk (Done c1) s1 => c1 = CVoid /\
+      transform_expr TRANSFORM_FUEL s1 (cell_of4 ex7_call) = Ok (cell_of4 ex7_call) /\
+      match eval Model.Builtins.other_builtin 200 (cell_of4 ex7_call) s1 with
+      | ROk (Done c2) s2 => c2 = CSym (S_ "yes") /\ sp s2 = 0 /\ bp s2 = 0 /\ ep s2 = USIZE_MAX
+      | _ => False
+      end
+  | _ => False
+  end.
+Proof. vm_compute. repeat split. Qed.
+
 (* ============================================================ C06: no panic on the closure fragment *)
 (* the evaluation of a well-formed closure-fragment expression whose reference value is a datum or
    a builtin never panics, whatever the fuel: it is NoFuel or Done *)
@@ -1063,3 +1163,72 @@ Proof.
   intros Hb He e rho b rho' s Hwf HR MI G Htr fuel k E.
   destruct (fragment4_outcome ob bsem Hb He e rho b rho' s Hwf HR MI G Htr fuel) as [H|[s' H]]; rewrite H in E; discriminate.
 Qed.
+
+(* ============================================================ the statements, spelled out *)
+(* (what Props/C01.v states for fragment 3, here for fragment 4; each is the named theorem) *)
+Theorem fragment4_static : forall e sc, wf4 e sc ->
+  forall f l tail s, (cell_size (cell_of4 e) < f)%nat -> hdr4 l sc s -> minv s ->
+  exists l' s' code, compile_expression f l tail (cell_of4 e) s = ROk l' s' /\
+    fwd l' = fwd l ++ code /\ same_hdr l l' /\ minv s' /\ cext s s' /\ same_regs s s' /\
+    envs (st s') = envs (st s).
+Proof. exact static4. Qed.
+
+Theorem fragment4_correct :
+  forall (ob : N -> M vcell) (bsem : N -> list rval -> option rval),
+  (forall b, builtin_ok ob bsem b) -> (forall b, builtin_envs ob bsem b) ->
+  forall sc lv rho e r rho', ref_eval4 bsem sc lv rho e r rho' ->
+  forall f l tail s l' s' code, wf4 e sc -> (cell_size (cell_of4 e) < f)%nat -> hdr4 l sc s -> minv s ->
+    compile_expression f l tail (cell_of4 e) s = ROk l' s' -> fwd l' = fwd l ++ code ->
+    forall m lp bc,
+      cext s' m -> minv m -> code_in m lp bc -> seg bc (len (fwd l)) code -> ip m = (lp, len (fwd l)) ->
+      genv_rel4 rho m -> lrel4 lv m -> (tail = true -> tframe m) ->
+      ok_n4 ob m lp (len (fwd l) + len code) r rho' \/ (tail = true /\ ok_t4 ob m r rho').
+Proof. exact compile_correct4. Qed.
+
+Theorem ok_n4_unfold : forall ob m lp q r rho', ok_n4 ob m lp q r rho' <->
+  exists n m', RunProofs.steps ob n m = Some m' /\ frame2 m m' /\ minv m' /\ ip m' = (lp, q) /\
+    vrep4 m' (acc m') r /\ genv_rel4 rho' m'.
+Proof. intros; reflexivity. Qed.
+Theorem ok_t4_unfold : forall ob m r rho', ok_t4 ob m r rho' <->
+  exists n m' k e i b, RunProofs.steps ob n m = Some m' /\ frame_at m k e i b /\ rext m m' /\ minv m' /\
+    vrep4 m' (acc m') r /\ genv_rel4 rho' m' /\
+    sp m' = bp m - k /\ ep m' = e /\ ip m' = i /\ bp m' = b /\ out_log m' = out_log m /\
+    (forall j, j <= bp m - k -> sget m' j = sget m j).
+Proof. intros; reflexivity. Qed.
+
+(* the representation of a closure value: its code object holds ENTER; the code the body loop
+   emitted for the body expressions; RET *)
+Theorem vrep4_closure_unfold : forall m v ps cs bodies cvals, vrep4 m v (R4Clo ps cs bodies cvals) <->
+  exists cp lamp cep ceid cslots, v = VPtr cp /\
+    allocated (hp m) cp /\ cell_at (hp m) cp = VClosure lamp cep /\
+    allocated (hp m) cep /\ cell_at (hp m) cep = VLexEnv ceid /\ ceid < next_id (st m) /\
+    tget (envs (st m)) ceid = Some cslots /\ len cslots = len ps + len cs /\
+    length cvals = length cs /\ closure_code m lamp ps cs bodies /\
+    all_idx (fun i cv => exists v', list_get cslots i = Some v' /\ ptr_slot m v' (fun w => vrep4 m w cv))
+            cvals (len ps).
+Proof. intros; reflexivity. Qed.
+Theorem closure_code_unfold : forall m lamp ps cs bodies, closure_code m lamp ps cs bodies <->
+  exists lam caps cb f lam2 s0 lam3 s0',
+    lam_in m lamp lam /\ l_envmap lam = ScopeProofs.enum_args (l_args lam) 0 ++ caps /\
+    Forall2 (pname m) (l_args lam) ps /\
+    Forall (fun e => exists k, snd e = BIofEnvironment k) caps /\ length caps = length cs /\
+    l_bc lam = [VOp OEnter] ++ cb ++ [VOp ORet] /\
+    bodies <> [] /\ (cell_size (cells_of4 bodies) < f)%nat /\ Forall (fun b => wf4 b (ps ++ cs)) bodies /\
+    hdr4 lam2 (ps ++ cs) s0 /\ minv s0 /\
+    compile_bodies f lam2 (map cell_of4 bodies) s0 = ROk lam3 s0' /\
+    fwd lam2 = [VOp OEnter] /\ fwd lam3 = fwd lam2 ++ cb /\ cext s0' m.
+Proof. intros; reflexivity. Qed.
+(* the body loop of the model's compile_lambda IS compile_bodies *)
+Theorem compile_bodies_is_body_loop : forall f bodies lam s,
+  body_loop4 (compile_expression f) (fold_right CPair CNil bodies) lam s = compile_bodies f lam bodies s.
+Proof. exact compile_bodies_eq. Qed.
+
+Print Assumptions fragment4_static.
+Print Assumptions fragment4_correct.
+Print Assumptions eval_fragment4_done.
+Print Assumptions done_state_ok4.
+Print Assumptions ex6_hypotheses.
+Print Assumptions ex6_run.
+Print Assumptions ex7_hypotheses.
+Print Assumptions ex7_run.
+Print Assumptions fragment4_no_panic.
